@@ -8,7 +8,8 @@ the facts the guard models of coq/SafeErrDefs.v are instantiated with.
       evaluation (theValue.null() == false -> return) and is stored after the pop (setValue), that the hit
       branch reports CircularVariableDefWasDetected with classification eError (XSLTEngineImpl::problem
       throws for eERROR), that nothing pops on the error path (no pop in a destructor/catch) and that
-      VariablesStack::reset() clears the stack;
+      VariablesStack::reset() clears the stack; whether a nesting limit ('if (m_guardStack.size() >= LIMIT) error' between the
+      test and the push) is there, and its value (variant flag variable_depth_limited);
   (2) StylesheetExecutionContextDefault::pushOnElementRecursionStack / findOnElementRecursionStack (attribute
       sets): the same facts;
   (3) StylesheetExecutionContextDefault::pushCurrentTemplate / popCurrentTemplate: the comparison between
@@ -98,6 +99,30 @@ def gen_safeerr():
         raise AnchorError("findXObject: the circular-definition branch does not call executionContext.problem(..., eError, ...)")
     if not (if_at < pushes[0] < evalm.start() < pops[0]):
         raise AnchorError("findXObject: order test < push_back < getValue < pop_back not found")
+    # optional nesting limit: 'if (m_guardStack.size() CMP LIMIT) { ... problem(..., eError, ...) ... }' between the
+    # circular-definition test and the push.  Any other use of m_guardStack.size() is an unknown shape.
+    size_uses = [m_ for m_ in re.finditer(r"m_guardStack\s*\.\s*size\s*\(\s*\)", fx)]
+    vlimited, vlimit, vlimit_name, vlimit_op = False, 0, "", ""
+    if size_uses:
+        lm = re.search(r"if\s*\(\s*m_guardStack\s*\.\s*size\s*\(\s*\)\s*(>=|>|==|!=|<=|<)\s*(\w+)\s*\)", fx)
+        if not lm or len(size_uses) != 1:
+            raise AnchorError("findXObject: use of m_guardStack.size() not recognised as a nesting limit")
+        if not (cond_end < lm.start() < pushes[0]):
+            raise AnchorError("findXObject: the nesting-limit test does not stand between the circular-definition test and the push")
+        lblk = function_body(fx[lm.end():], r"\{", "findXObject: block of the nesting-limit test")
+        if not re.search(r"executionContext\s*\.\s*problem\s*\(", lblk) or not re.search(r"\beError\b", lblk):
+            raise AnchorError("findXObject: the nesting-limit branch does not call executionContext.problem(..., eError, ...)")
+        vlimit_op, vlimit_name = lm.group(1), lm.group(2)
+        raw = enum_value(strip_comments(read("XSLT/VariablesStack.hpp")), vlimit_name)
+        if vlimit_op == ">=":
+            vlimit = raw
+        elif vlimit_op == ">":
+            vlimit = raw + 1          # refused when the size exceeds the constant: one more level runs
+        else:
+            raise AnchorError("findXObject: comparison %r of the nesting limit not recognised" % vlimit_op)
+        if not (0 < vlimit <= 100000):
+            raise AnchorError("findXObject: nesting limit %d outside the range the model is built for" % vlimit)
+        vlimited = True
     short = need(r"if\s*\(\s*theValue\s*\.\s*null\s*\(\s*\)\s*==\s*false\s*\)\s*\{\s*return\s+theValue\s*;", fx, "findXObject: stored value returned first")
     store = need(r"m_stack\s*\[\s*theEntryIndex\s*\]\s*\.\s*setValue\s*\(\s*theNewValue\s*\)", fx, "findXObject: setValue(theNewValue)")
     if not (short.start() < if_at and pops[0] < store.start()):
@@ -145,6 +170,19 @@ def gen_safeerr():
     ee = function_body(eas, r"ElemAttributeSet::endElement\s*\(", "ElemAttributeSet::endElement")
     need(r"pushOnElementRecursionStack\s*\(\s*this\s*\)", se, "ElemAttributeSet::startElement: pushOnElementRecursionStack(this)")
     need(r"popElementRecursionStack\s*\(\s*\)", ee, "ElemAttributeSet::endElement: popElementRecursionStack()")
+
+    if re.search(r"m_elementRecursionStack\s*\.\s*size\s*\(", po):
+        raise AnchorError("m_elementRecursionStack.size() is used: the attribute-set model has no nesting limit")
+    # --- repairs of K-C03e-2 / K-C03e-4 (recorded as facts; no Coq model depends on them)
+    fe = strip_comments(read("XalanExtensions/FunctionEvaluate.cpp"))
+    em = re.search(r"\b(eMaximumEvaluateNestingDepth)\s*=\s*(\d+)", fe)
+    evaluate_limited = bool(em and re.search(r"thread_local[^;]*s_evaluateNestingDepth", fe) and re.search(r"\+\+\s*s_evaluateNestingDepth", fe)
+                            and re.search(r"--\s*s_evaluateNestingDepth", fe) and re.search(r"s_evaluateNestingDepth\s*>\s*eMaximumEvaluateNestingDepth", fe))
+    evaluate_limit = int(em.group(2)) if evaluate_limited else 0
+    fe_src = strip_comments(read("XSLT/ElemForEach.cpp"))
+    sc = function_body(fe_src, r"ElemForEach::sortChildren\s*\(", "ElemForEach::sortChildren")
+    nested_sorter = bool(re.search(r"NodeSorter\s+(\w+)\s*\(", sc) and re.search(r"getSortKeys\s*\(\s*\)\s*\.\s*empty\s*\(\s*\)\s*==\s*false", sc)
+                         and re.search(r"sorter\s*=\s*&\s*\w+\s*;", sc))
 
     # --- (3) template nesting ------------------------------------------------------------------
     pc = function_body(ec, r"StylesheetExecutionContextDefault::pushCurrentTemplate\s*\(", "pushCurrentTemplate")
@@ -210,6 +248,17 @@ def gen_safeerr():
     o += "(* test < push_back(var) < var->getValue < pop_back; stored value returned first; setValue after the pop;\n"
     o += "   problem(..., eError, ...) throws (XSLTEngineImpl::problem); no try/catch; reset() clears m_guardStack *)\n"
     o += "Definition variable_value_stored : bool := true.\n"
+    if vlimited:
+        o += "(* nesting limit: 'if (m_guardStack.size() %s %s) problem(eError)' between the circular-definition test and the push; %s = %d *)\n" % (vlimit_op, vlimit_name, vlimit_name, raw)
+    else:
+        o += "(* no nesting limit: m_guardStack.size() is not tested (finding K-C03e-1) *)\n"
+    o += "Definition variable_depth_limited : bool := %s.\n" % ("true" if vlimited else "false")
+    o += "Definition variable_nesting_limit : N := %d%%N.\n" % vlimit
+    o += "Definition variable_dlimit : option nat := %s.\n" % ("Some (N.to_nat %d%%N)" % vlimit if vlimited else "None")
+    o += "(* recorded only: xalan:evaluate nesting counter (K-C03e-2), own NodeSorter for a nested sort (K-C03e-4) *)\n"
+    o += "Definition evaluate_nesting_limited : bool := %s.\n" % ("true" if evaluate_limited else "false")
+    o += "Definition evaluate_nesting_limit : N := %d%%N.\n" % evaluate_limit
+    o += "Definition nested_sort_own_sorter : bool := %s.\n" % ("true" if nested_sorter else "false")
     o += "Definition variable_guard_sites : list (string * N) := [(\"push_back\", %d%%N); (\"pop_back\", %d%%N)].\n\n" % (all_push, all_pop)
     o += "(* StylesheetExecutionContextDefault::findOnElementRecursionStack (attribute sets): no stored value *)\n"
     o += "Definition attribute_set_guard_search : guard_search := %s.\n" % amode
@@ -222,7 +271,8 @@ def gen_safeerr():
     o += "(* XPathProcessorImpl: %d sites 'if (++m_nestingDepth %s %s) error(ExpressionNestedTooDeeply)', each followed by '--m_nestingDepth' *)\n" % (len(sites), sites[0][0], sites[0][1])
     o += "Definition xpath_nesting_cmp : limit_cmp := %s.\n" % xcmp
     o += "Definition xpath_nesting_limit : N := %d%%N.\n" % xlimit
-    facts = {"variable_guard_search": mode, "attribute_set_guard_search": amode, "template_limit_cmp": tcmp, "template_nesting_limit": tlimit,
+    facts = {"variable_depth_limited": vlimited, "variable_nesting_limit": vlimit, "evaluate_nesting_limited": evaluate_limited,
+             "evaluate_nesting_limit": evaluate_limit, "nested_sort_own_sorter": nested_sorter, "variable_guard_search": mode, "attribute_set_guard_search": amode, "template_limit_cmp": tcmp, "template_nesting_limit": tlimit,
              "template_stack_initial": tinit, "xpath_nesting_cmp": xcmp, "xpath_nesting_limit": xlimit, "xpath_nesting_sites": len(sites)}
     return o, facts
 
